@@ -271,6 +271,16 @@ impl ShardFileManager {
                 .insert(s.shard_hash, (shard_col_index, shard_index));
 
             sbkp_lg.total_indexed_chunks += num_inserted_chunks;
+            #[cfg(xet_verif)]
+            utils::verif::emit("SmRegister", || {
+                format!(
+                    "\"shard\":\"{}\",\"key\":\"{}\",\"col\":{},\"ncols\":{}",
+                    s.shard_hash.hex(),
+                    shard_hmac_key.hex(),
+                    shard_col_index,
+                    sbkp_lg.shard_collections.len()
+                )
+            });
         }
 
         if num_shards != 0 {
@@ -395,9 +405,15 @@ impl ShardFileManager {
 
     /// Add CAS info to the in-memory state.
     pub async fn add_cas_block(&self, cas_block_contents: MDBCASInfo) -> Result<()> {
+        #[cfg(xet_verif)]
+        utils::verif::gate("sm_add", "");
         let mut lg = self.current_state.write().await;
+        #[cfg(xet_verif)]
+        let verif_xorb = cas_block_contents.metadata.cas_hash;
 
         lg.add_cas_block(cas_block_contents)?;
+        #[cfg(xet_verif)]
+        utils::verif::emit("SmAdd", || format!("\"x\":\"{}\"", verif_xorb.hex()));
 
         // See if this put it over the target minimum size, allowing us to cut a new shard
         if lg.shard_file_size() >= self.target_shard_min_size {
@@ -430,19 +446,35 @@ impl ShardFileManager {
     pub async fn flush(&self) -> Result<Option<PathBuf>> {
         let new_shard_path;
 
+        #[cfg(xet_verif)]
+        utils::verif::gate("sm_flush_write", "");
         // The locked section here.
         {
             let mut lg = self.current_state.write().await;
 
             if lg.is_empty() {
+                #[cfg(xet_verif)]
+                utils::verif::emit("SmFlushEmpty", String::new);
                 return Ok(None);
             }
 
+            #[cfg(xet_verif)]
+            let verif_xorbs: Vec<String> = lg.cas_content.keys().map(|h| format!("\"{}\"", h.hex())).collect();
             new_shard_path = lg.write_to_directory(&self.shard_directory)?;
             *lg = MDBInMemoryShard::default();
+            #[cfg(xet_verif)]
+            utils::verif::emit("SmFlushWrite", || {
+                format!(
+                    "\"shard\":\"{}\",\"xorbs\":[{}]",
+                    crate::utils::parse_shard_filename(&new_shard_path).map(|h| h.hex()).unwrap_or_default(),
+                    verif_xorbs.join(",")
+                )
+            });
 
             info!("Shard manager flushed new shard to {new_shard_path:?}.");
         }
+        #[cfg(xet_verif)]
+        utils::verif::gate("sm_flush_register", "");
 
         // Load this one into our local shard catalog
         self.register_shards(&[MDBShardFile::load_from_file(&new_shard_path)?]).await?;
